@@ -23,6 +23,9 @@ NONTRIV = set('[](){}<>?-+/^@#|:,.\\')
 
 CORPUS_MUST_RAISE = ['Foo', 'U:99999', 'UNIMOD:xyz', 'M:notaname', 'X:99999', 'R:AA0037', 'G:G00001', 'Glycan:Foo',
                      'Obs:abc', 'INFO:x', 'a|b', 'MOD:99999', 'Formula:Zz2', 'INFO:a|Foo']
+# macro tokens: whole notation elements, so that short sequences reach well-formed groups followed by one odd element
+MACRO = ['PEK', 'K', '[1]', '^2', '/2', '[+Na+]', '-', '?', '(', ')', '<13C>', '<[1]@K>', '{1}', '+', '//', '[Oxidation]',
+         '^', '/', '\\\\', '[']
 SLOTS = ['labile', 'static', 'unknown', 'nterm', 'r0', 'iv', 'cterm', 'rlast']
 
 
@@ -45,6 +48,8 @@ def shards(tier):
     for a in range(len(TOKENS)):
         out.append({'kind': 'pump', 'first': a})
     out.append({'kind': 'deferred'})
+    out += [{'kind': 'macro', 'first': i} for i in range(len(MACRO))]
+    out += [{'kind': 'novalue', 'db': 'psimod'}, {'kind': 'novalue', 'db': 'xlmod'}]
     return out
 
 
@@ -66,6 +71,17 @@ def gen(shard, tier):
         for m in range(1, 4):
             for rest in itertools.product(range(len(TOKENS)), repeat=m - 1):
                 yield {'kind': 'pumpbundle', 'toks': [a] + list(rest)}, m, True
+    elif shard['kind'] == 'macro':
+        L = 5 if tier == 'thorough' else 4
+        yield {'kind': 'macrobundle', 'first': shard['first'], 'hi': L}, 1, True
+    elif shard['kind'] == 'novalue':
+        from mc import obo
+        ents = obo.psimod() if shard['db'] == 'psimod' else obo.xlmod()
+        pf = 'MOD:' if shard['db'] == 'psimod' else 'XLMOD:'
+        for e in ents:
+            if e['obsolete'] or e['mono'] is not None or e.get('formula') not in (None, 'none'):
+                continue
+            yield {'kind': 'novalue', 'val': pf + e['acc'], 'name': e['name']}, 1, True
     else:
         for slot in SLOTS:
             for val in CORPUS_MUST_RAISE:
@@ -131,7 +147,7 @@ def check(case, ctx):
         acc = 0
         seen = set()
         for i in range(len(s0) + 1):
-            muts = [s0[:i] + t + s0[i:] for t in TOKENS]
+            muts = [s0[:i] + t + s0[i:] for t in TOKENS + MACRO[2:]]
             if i < len(s0):
                 muts.append(s0[:i] + s0[i + 1:])
                 muts.append(s0[:i] + s0[i] + s0[i:])
@@ -146,6 +162,38 @@ def check(case, ctx):
         ctx.sub_states = n
         ctx.sub_nontrivial = n
         ctx.outcome = [s0, acc]
+    elif kind == 'macrobundle':
+        n = 0
+        acc = 0
+        first = MACRO[case['first']]
+        for ln in range(1, case['hi'] + 1):
+            for rest in itertools.product(MACRO, repeat=ln - 1):
+                s = first + ''.join(rest)
+                acc += _one(p, ctx, s) == 'A'
+                n += 1
+        ctx.sub_states = n
+        ctx.sub_nontrivial = n
+        ctx.outcome = [first, acc]
+    elif kind == 'novalue':
+        # vocabulary entries whose table row has neither a mass nor a formula: unresolvable, must not count as zero
+        val = case['val']
+        for s in (f'PEK[{val}]', f'[{val}]-PEK', f'<[{val}]@K>PEK'):
+            plain = p.mass('PEK')
+            st, m = lib.call(p.mass, s)
+            ctx.evals += 1
+            if st == 'ok':
+                ctx.fail('deferred-mass-silent', 'ValueError (entry has no mass and no formula)', m, text=s,
+                         unmodified_mass=plain, entry=case['name'])
+            elif not isinstance(m, ValueError):
+                ctx.fail('deferred-mass-foreign-exception', 'ValueError', m, text=s)
+            st, c = lib.call(p.comp, s)
+            ctx.evals += 1
+            if st == 'ok':
+                ctx.fail('deferred-comp-silent', 'ValueError (entry has no mass and no formula)', c, text=s,
+                         entry=case['name'])
+            elif not isinstance(c, ValueError):
+                ctx.fail('deferred-comp-foreign-exception', 'ValueError', c, text=s)
+        ctx.outcome = [val]
     elif kind == 'pumpbundle':
         toks = [TOKENS[i] for i in case['toks']]
         n = 0
